@@ -15,6 +15,7 @@ type Def struct {
 	Sort Sort
 	Body string
 	Seq  int
+	T    *Term
 }
 
 type World struct {
@@ -135,11 +136,11 @@ func (w *World) Fresh(prefix string, s Sort) *Term {
 
 // Define introduces a named abbreviation for t when it is large.
 func (w *World) Define(prefix string, t *Term) *Term {
-	if len(t.String()) < 160 {
-		return t
+	if len(t.String()) < 160 || strings.Contains(t.String(), "!q") {
+		return t // small, or mentions a quantifier-bound variable
 	}
 	w.seq++
-	d := &Def{Name: fmt.Sprintf("%s!d%d", smtName(prefix), w.seq), Sort: t.Sort, Body: t.String(), Seq: w.seq}
+	d := &Def{Name: fmt.Sprintf("%s!d%d", smtName(prefix), w.seq), Sort: t.Sort, Body: t.String(), Seq: w.seq, T: t}
 	w.defs[d.Name] = d
 	w.defOrder = append(w.defOrder, d)
 	return Atom(d.Name, t.Sort)
